@@ -174,7 +174,7 @@ func (p *sparser) expect(v string) {
 
 func (p *sparser) expr() *SX {
 	t := p.peek()
-	if t.k == "id" && (t.v == "forall" || t.v == "exists") {
+	if t.k == "id" && (t.v == "forall" || t.v == "exists" || t.v == "setof") {
 		p.next()
 		// binders up to '::'
 		start := p.peek().p
@@ -276,6 +276,7 @@ func (p *sparser) implies() *SX {
 		} else {
 			r = p.implies()
 		}
+		_ = t
 		return &SX{Op: "bin", Name: "==>", Args: []*SX{l, r}}
 	}
 	return l
@@ -486,6 +487,7 @@ type LoopSpec struct {
 	Decreases  *SX
 	Head       []GhostStmt
 	End        []GhostStmt
+	Init       []GhostStmt
 }
 
 type GhostVar struct {
@@ -511,6 +513,7 @@ type Contract struct {
 	Ghosts   []GhostVar
 	Entry    []GhostStmt
 	Exit     []GhostStmt
+	CallGhost map[string][]GhostStmt // before@pkg.Func / after@pkg.Func
 	Modifies []string // nil = default (pointer receiver and pointer params may change); ["nothing"]
 	Options  map[string]string
 	File     string
@@ -523,6 +526,8 @@ type SpecFunc struct {
 	Result  string
 	Body    *SX
 	IsAxiom bool
+	Opaque  bool
+	Macro   bool
 	Raw     string
 }
 
@@ -553,7 +558,7 @@ type ContractSet struct {
 }
 
 var clauseKW = map[string]bool{"func": true, "assume": true, "pure": true, "pred": true, "axiom": true, "lemma": true, "requires": true,
-	"ensures": true, "loop": true, "property": true, "modifies": true, "ghost": true, "option": true, "at": true, "proof": true, "trusted": true, "induction": true, "guarded": true, "end": true, "assert": true, "use": true}
+	"ensures": true, "loop": true, "property": true, "modifies": true, "ghost": true, "option": true, "at": true, "proof": true, "trusted": true, "induction": true, "guarded": true, "end": true, "assert": true, "use": true, "opaque": true, "macro": true}
 
 var labelRe = regexp.MustCompile(`^([A-Za-z_][A-Za-z0-9_\-]*):\s+(.*)$`)
 
@@ -738,7 +743,19 @@ func (cs *ContractSet) parseFile(fname, data string) error {
 			cs.Order = append(cs.Order, key)
 			curLemma = nil
 			inProof = false
-		case "pure", "pred":
+		case "pure", "pred", "opaque", "macro":
+			opaque := false
+			macro := first == "macro"
+			if first == "opaque" || first == "macro" {
+				opaque = first == "opaque"
+				if strings.HasPrefix(rest, "pred ") {
+					first, rest = "pred", strings.TrimSpace(rest[5:])
+				} else if strings.HasPrefix(rest, "pure ") {
+					first, rest = "pure", strings.TrimSpace(rest[5:])
+				} else {
+					return werr(fmt.Errorf("expected 'opaque pred' or 'opaque pure func'"))
+				}
+			}
 			if first == "pure" {
 				if rest == "" && cur != nil {
 					cur.Pure = true
@@ -756,7 +773,7 @@ func (cs *ContractSet) parseFile(fname, data string) error {
 			if first == "pred" {
 				result = "bool"
 			}
-			sf := &SpecFunc{Name: name, Params: params, Result: result, Raw: rest}
+			sf := &SpecFunc{Name: name, Params: params, Result: result, Raw: rest, Opaque: opaque, Macro: macro}
 			if body != "" {
 				e, err := parseSpecExpr(body)
 				if err != nil {
@@ -855,15 +872,18 @@ func (cs *ContractSet) parseFile(fname, data string) error {
 					return werr(err)
 				}
 				ls.Decreases = e
-			case "head", "end":
+			case "head", "end", "init":
 				gs, err := parseGhostStmt(fs[2])
 				if err != nil {
 					return werr(err)
 				}
-				if fs[1] == "head" {
+				switch fs[1] {
+				case "head":
 					ls.Head = append(ls.Head, gs)
-				} else {
+				case "end":
 					ls.End = append(ls.End, gs)
+				default:
+					ls.Init = append(ls.Init, gs)
 				}
 			default:
 				return werr(fmt.Errorf("unknown loop clause %q", fs[1]))
@@ -886,6 +906,14 @@ func (cs *ContractSet) parseFile(fname, data string) error {
 			case "exit":
 				cur.Exit = append(cur.Exit, gs)
 			default:
+				a := strings.TrimSuffix(fs[0], ":")
+				if strings.HasPrefix(a, "before@") || strings.HasPrefix(a, "after@") {
+					if cur.CallGhost == nil {
+						cur.CallGhost = map[string][]GhostStmt{}
+					}
+					cur.CallGhost[a] = append(cur.CallGhost[a], gs)
+					break
+				}
 				return werr(fmt.Errorf("unknown anchor %q", fs[0]))
 			}
 		case "ghost":
